@@ -102,7 +102,17 @@ func keyCode(name string) (evdev.EvCode, error) {
 	return c, nil
 }
 
+// splitAxis: an axis name of the abstract configuration may carry the sub-handler it belongs to, "Touchpad:ABS_X" -
+// the same evdev code delivered by another handler of the device.  The model treats it as an axis of its own.
+func splitAxis(name, dflt string) (sub, abs string) {
+	if i := strings.Index(name, ":"); i >= 0 {
+		return name[:i], name[i+1:]
+	}
+	return dflt, name
+}
+
 func absCode(name string) (evdev.EvCode, error) {
+	_, name = splitAxis(name, "")
 	c, ok := evdev.ABSFromString[name]
 	if !ok {
 		return 0, fmt.Errorf("unknown abs name %q", name)
@@ -149,14 +159,15 @@ func literalConfig(c *absCfg, sub string) (config.Config, error) {
 			}
 			km.Midi[sub][code] = config.Key{Note: byte(kd.N), ChannelOffset: byte(kd.O)}
 		}
-		if len(m.Axes) > 0 {
-			km.Analog[sub] = map[evdev.EvCode]config.Analog{}
-			km.Deadzones[sub] = map[evdev.EvCode]float64{}
-		}
 		for a, ad := range m.Axes {
 			code, err := absCode(a)
 			if err != nil {
 				return out, err
+			}
+			sub, _ := splitAxis(a, sub)
+			if km.Analog[sub] == nil {
+				km.Analog[sub] = map[evdev.EvCode]config.Analog{}
+				km.Deadzones[sub] = map[evdev.EvCode]float64{}
 			}
 			km.Analog[sub][code] = config.Analog{
 				MappingType: config.MappingType(ad.Type),
@@ -341,6 +352,7 @@ func (r *devRun) step(in devInput) (stepOut, bool) {
 		raw := in.Raw
 		res.Raw = &raw
 		ev = r.event(evdev.EV_ABS, code, in.Raw)
+		ev.Source.Name, _ = splitAxis(in.A, r.sub)
 	case "ignored":
 		switch in.Kind {
 		case "repeat":
